@@ -2843,13 +2843,8 @@ func (s *Storage) Decode(d *Decoder) error {
 		// INFO: we want to read the vectors from jamtestnet, so we follow the same
 		// pattern as in the jamtestnet. They put the length of the key before the
 		// key
-		length, err := d.DecodeLength()
-		if err != nil {
+		if _, err := d.DecodeLength(); err != nil {
 			return err
-		}
-
-		if length == 0 {
-			return nil
 		}
 
 		var key ByteSequence
